@@ -28,6 +28,8 @@ pub enum Raw {
 #[derive(Clone, Debug, PartialEq, Eq, Hash, serde::Serialize, serde::Deserialize)]
 pub enum Event {
     Send { app: usize },
+    /// send_request with a caller buffer of `cap` bytes (too small: the call must fail and change nothing)
+    SendTiny { app: usize, cap: usize },
     SendM { app: usize, method: u16, indication: bool },
     Indicate { app: usize },
     Timer,
@@ -133,6 +135,7 @@ pub fn step(run: &mut Run, ev: &Event, rep: Option<(&mut Report, &[Event])>) -> 
     let bytes = bytes_for(&run.w, ev, &run.delivered);
     let obs = match ev {
         Event::Send { app } => run.w.send(*app),
+        Event::SendTiny { app, cap } => run.w.send_tiny(*app, *cap),
         Event::SendM { app, method, indication } => run.w.send_method(*app, *method, *indication),
         Event::Indicate { app } => run.w.indicate(*app),
         Event::Timer => run.w.timer(),
@@ -213,6 +216,7 @@ pub fn bfs_with(cfg: &Cfg, apps: &Arc<Vec<Vec<L>>>, proto: &dyn Monitor, depth: 
                     n += 1;
                     local.sym(match &e {
                         Event::Send { .. } | Event::SendM { .. } => "Send",
+                        Event::SendTiny { .. } => "SendTiny",
                         Event::Indicate { .. } => "Indicate",
                         Event::Timer | Event::TimerAt(_) => "Timer",
                         Event::AdvanceTo(_) => "Advance",
